@@ -43,7 +43,9 @@ FmtArgs == {S(<<"a", "b">>), S(<<"x", "b", "acute", "d">>), S(<<"wave", "tone", 
             K(TNum, [lm |-> "f64intp"]), K(TNum, [lm |-> "u64max"]), K(TNum, [lm |-> "almost1"]), K(TNum, [lm |-> "malmost3"])}
 ArgLs == {<<>>} \cup {<<x>> : x \in FmtArgs} \cup {<<x, y>> : x \in TakeN(FmtArgs, 9), y \in {S(<<"a", "b">>), NumV(8), NumV(-12)}}
 Pick(n, S0) == IF Cardinality(S0) <= n THEN S0 ELSE RandomSubset(n, S0)
-Formats == Pick(IF Thorough THEN 5000 ELSE 350, Fmt1) \cup Pick(IF Thorough THEN 2500 ELSE 150, Fmt2) \cup FmtBad
+\* always present: every verb with each single flag and each width (the sampled product adds precisions, indices, flag pairs)
+FmtBasic == {Verb(fl, w, <<>>, <<>>, m) : fl \in {<<>>, <<"-">>, <<"0">>, <<"+">>, <<" ">>, <<"#">>}, w \in Widths, m \in Modes}
+Formats == FmtBasic \cup Pick(IF Thorough THEN 5000 ELSE 350, Fmt1) \cup Pick(IF Thorough THEN 2500 ELSE 150, Fmt2) \cup FmtBad
 \* three verbs with explicit / implicit argument indices: the index threading ("next argument" after an explicit index)
 VerbsIdx == {<<"%">> \o ix \o <<m>> : ix \in {<<>>, <<"[", "1", "]">>, <<"[", "2", "]">>, <<"[", "3", "]">>}, m \in {"s", "v"}}
 Fmt3 == {v1 \o <<"|">> \o v2 \o <<"|">> \o v3 : v1 \in VerbsIdx, v2 \in VerbsIdx, v3 \in VerbsIdx}
